@@ -21,6 +21,7 @@ Inductive hop :=
 | OSet (k v : Z) | OStatus (c : Z) | OWrite (bs : list Z)
 | OEcho                 (* read everything, write it back *)
 | OEchoHdr (k : Z)      (* copy request header k into response header k when present *)
+| OFlush                (* if f, ok := w.(http.Flusher); ok { f.Flush() } *)
 | OBarrier.             (* overlapping requests: wait until all of them are inside their handlers; nothing to the model *)
 
 Fixpoint compile (ops : list hop) : hprog :=
@@ -34,6 +35,7 @@ Fixpoint compile (ops : list hop) : hprog :=
   | OStatus c :: t => HStatus c (compile t)
   | OWrite bs :: t => HWrite bs (compile t)
   | OEcho :: t => HReadAll (fun b => HWrite b (compile t))
+  | OFlush :: t => HFlush (compile t)
   | OBarrier :: t => compile t
   | OEchoHdr k :: t =>
       HObsReq (fun _ _ h => match get k h with Some v => HSetHdr k v (compile t) | None => compile t end)
@@ -76,6 +78,9 @@ Inductive case :=
 | CHttpSeq (listener : Z) (ops : list cop)
         (rm rp : Z) (rh : list (Z * Z)) (rb : list Z)
         (st : Z) (oh : list (Z * Z)) (ob : list Z) (ev : list (list Z))
+(* the same exchange in which the client also received interim (1xx) responses before the final one:
+   each entry = status code followed by the flattened sorted X-V headers of that interim response *)
+| CInfo (oi : list (list Z)) (c : case)
 | CGrpc (regs : list (Z * Z)) (d res : Z)               (* RegisterImplementation calls; called service; answering impl or -1 *)
 | CGrpcList (regs : list (Z * Z)) (listed : list Z).    (* services the reflection service lists (our descriptors only) *)
 
@@ -131,11 +136,12 @@ Definition provider (listener : Z) (r : @routes Z handler) (mw : option middlewa
 Definition exchange (listener : Z) calls (mw : option middleware) (q : reqst) : world :=
   respond (serve_handler Z.eqb (provider listener (config_of Z.eqb (hcalls calls)) mw) (q_method q) (q_path q)) q.
 
-Definition client_eqb (rm : Z) (s : world) (st : Z) (oh : list (Z * Z)) (ob : list Z) : bool :=
+Definition client_eqb (oi : list (list Z)) (rm : Z) (s : world) (st : Z) (oh : list (Z * Z)) (ob : list Z) : bool :=
   match p_sent (w_resp s) with
   | None => false
   | Some (c, h) =>
       Z.eqb c st && hdr_eqb h oh &&
+      zzlist_eqb oi (map (fun ch => fst ch :: hflat (snd ch)) (p_info (w_resp s))) &&
       (if rm =? mHEAD then zlist_eqb ob [] else zlist_eqb ob (p_body (w_resp s)))   (* net/http: no body on HEAD *)
   end.
 
@@ -147,7 +153,7 @@ Definition rec_ids (l : list mwc) : list Z :=
   flat_map (fun m => match m with MRec i => [i] | _ => [] end) l.
 
 (* [full] = the exchange as the complete model predicts it *)
-Definition verdict_http (conc : bool) (listener : Z) (calls : list (Z * Z * list hop)) (mw : option (list mwc)) (direct : bool)
+Definition verdict_http (oi : list (list Z)) (conc : bool) (listener : Z) (calls : list (Z * Z * list hop)) (mw : option (list mwc)) (direct : bool)
            (full : reqst -> world) (rm rp : Z) (rh : list (Z * Z)) (rb : list Z)
            (st : Z) (oh : list (Z * Z)) (ob : list Z) (ev : list (list Z)) : nat :=
       let q := {| q_method := rm; q_path := rp; q_hdr := rh; q_body := rb |} in
@@ -172,14 +178,14 @@ Definition verdict_http (conc : bool) (listener : Z) (calls : list (Z * Z * list
       let served := match expected Z.eqb (icalls calls) None rm rp with Served _ => true | _ => false end in
       let m3 :=
         if served then
-          client_eqb rm plain st oh ob &&
+          client_eqb oi rm plain st oh ob &&
           zzlist_eqb (filter (fun e => negb (is_logger e)) ev) (map enc (visible_log plain))
         else true in
       if negb (m1 && m2 && m3) then 1%nat
       else
         let full := full q in
         if served then
-          if client_eqb rm full st oh ob &&
+          if client_eqb oi rm full st oh ob &&
              (if conc then zzlist_eqb ev (map enc (visible_log full)) else zzlist_eqb ev (map enc (w_log full)))
           then 0%nat else 2%nat
         else if Z.eqb (status_of full) st then 0%nat else 2%nat.
@@ -205,15 +211,16 @@ Definition exchange_seq (listener : Z) (ops : list cop) (q : reqst) : world :=
   let c := cfg_run Z.eqb (cfg_ops 0 ops) in
   respond (serve_handler Z.eqb (provider listener (c_routes c) (c_mw c)) (q_method q) (q_path q)) q.
 
-Definition verdict (c : case) : nat :=
+Fixpoint verdict_i (oi : list (list Z)) (c : case) : nat :=
   match c with
+  | CInfo oi' c' => verdict_i (oi ++ oi') c'
   | CHttp listener calls mw direct rm rp rh rb st oh ob ev =>
-      verdict_http false listener calls mw direct (exchange listener calls (mw_of mw direct)) rm rp rh rb st oh ob ev
+      verdict_http oi false listener calls mw direct (exchange listener calls (mw_of mw direct)) rm rp rh rb st oh ob ev
   | CHttpConc listener calls mw direct rm rp rh rb st oh ob ev =>
-      verdict_http true listener calls mw direct (exchange listener calls (mw_of mw direct)) rm rp rh rb st oh ob ev
+      verdict_http oi true listener calls mw direct (exchange listener calls (mw_of mw direct)) rm rp rh rb st oh ob ev
   | CHttpSeq listener ops rm rp rh rb st oh ob ev =>
       let mwd := last_mw ops in
-      verdict_http false listener (adds_c ops) (option_map fst mwd) (match mwd with Some (_, d) => d | None => false end)
+      verdict_http oi false listener (adds_c ops) (option_map fst mwd) (match mwd with Some (_, d) => d | None => false end)
                    (exchange_seq listener ops) rm rp rh rb st oh ob ev
   | CGrpc regs d res =>
       let spec := match (fix last (l : list (Z * Z)) (acc : Z) : Z :=
@@ -228,6 +235,8 @@ Definition verdict (c : case) : nat :=
       if negb (znodup listed && zlist_eqb (zsort listed) (zsort (nodup Z.eq_dec (map fst regs)))) then 1%nat
       else if zlist_eqb (zsort listed) (zsort (map fst (grpc_config_of regs))) then 0%nat else 2%nat
   end.
+
+Definition verdict (c : case) : nat := verdict_i [] c.
 
 Definition mismatches (cs : list case) : list (nat * nat) := collect verdict 0 cs.
 
@@ -255,6 +264,15 @@ Example corr_selftest :
                         [[7; 0]; [3; 11; 11; 11]]) = 0%nat
   /\ verdict (CHttpConc 0 [(2, 1, [OBarrier; OEcho])] (Some [MLogReq]) false 2 1 [] [11; 11; 11] 200 [] [12; 12; 12]
                         [[7; 0]; [3; 12; 12; 12]]) = 1%nat
+  (* 103 Early Hints then 404 through LogResponse: the client must get the hints and 404 ... *)
+  /\ verdict (CInfo [[103; 1; 5]] (CHttp 0 [(0, 1, [OSet 1 5; OStatus 103; OStatus 404; OWrite [9]])] (Some [MLogResp]) false 0 1 [] []
+                        404 [(1, 5)] [9] [[7; 0]; [6; 0; 1; 404; 9]])) = 0%nat
+  (* ... a wrapper that swallows the final status (client gets 200) is rejected *)
+  /\ verdict (CInfo [[103; 1; 5]] (CHttp 0 [(0, 1, [OSet 1 5; OStatus 103; OStatus 404; OWrite [9]])] (Some [MLogResp]) false 0 1 [] []
+                        200 [(1, 5)] [9] [[7; 0]; [6; 0; 1; 103; 9]])) = 1%nat
+  (* flush, then WriteHeader(404): 200 with and without LogResponse (F13d fixed); 404 behind the wrapper is rejected *)
+  /\ verdict (CHttp 0 [(0, 1, [OFlush; OStatus 404; OWrite [9]])] (Some [MLogResp]) false 0 1 [] [] 200 [] [9] [[7; 0]; [6; 0; 1; 404; 9]]) = 0%nat
+  /\ verdict (CHttp 0 [(0, 1, [OFlush; OStatus 404; OWrite [9]])] (Some [MLogResp]) false 0 1 [] [] 404 [] [9] [[7; 0]; [6; 0; 1; 404; 9]]) = 1%nat
   /\ verdict (CGrpc [(1, 10); (2, 20); (1, 11)] 1 11) = 0%nat
   /\ verdict (CGrpc [(1, 10)] 3 (-1)) = 0%nat
   /\ verdict (CGrpc [(1, 10)] 1 (-1)) = 1%nat.
